@@ -1,10 +1,12 @@
 // ===== trusted prelude: head (outside verus!) =====
 #![allow(unused_imports, dead_code, unused_variables, unused_mut, unused_parens, non_snake_case, unreachable_code, unused_assignments)]
 use vstd::prelude::*;
+use std::collections::{HashMap, HashSet};
 use std::net::{SocketAddr, IpAddr, Ipv4Addr, Ipv6Addr, SocketAddrV4, SocketAddrV6};
 use std::time::Duration;
 use std::ops::{Add, Sub};
 use vstd::std_specs::cmp::{PartialOrdSpec, PartialEqSpec, PartialEqSpecImpl};
+use vstd::std_specs::iter::IteratorSpec;
 
 // TRUSTED stand-in for /repo/src/time.rs (81 lines wrapping std::time::Instant, shifted by one week)
 #[derive(Clone, Copy, PartialOrd, PartialEq, Ord, Eq)]
